@@ -82,11 +82,15 @@ Definition obj := list (str * value).
    f64's Display and f64::from_str.  The correspondence instantiates them with a
    table observed from the implementation in the same run. *)
 Record oracle := mkOracle {
-  fshow : spec_float -> str;
-  fparse : str -> option spec_float;
+  fshow : spec_float -> str;               (* f64's Display *)
+  fparse : str -> option spec_float;       (* f64::from_str *)
+  upper_c : char -> str;                   (* char::to_uppercase *)
+  lower_c : char -> str;                   (* char::to_lowercase *)
+  graphemes : str -> list str;             (* unicode-segmentation, extended grapheme clusters *)
 }.
 
-Definition no_oracle_v : oracle := mkOracle (fun _ => [63%N]) (fun _ => None).
+Definition no_oracle_v : oracle :=
+  mkOracle (fun _ => [63%N]) (fun _ => None) (fun c => [c]) (fun c => [c]) (fun s => map (fun c => [c]) s).
 
 (* ---- IEEE helpers (binary64) ---- *)
 Definition prec := 53%Z.
@@ -140,17 +144,18 @@ Definition scalar_kstr (O : oracle) (s : scalar) : str :=
   | SDate d => show_date d
   | SStr x => x
   end.
-(* render: arrays concatenate their items; objects print "k: v" pairs joined by ", " *)
+(* render: arrays concatenate their items; objects concatenate key and rendered value of
+   every entry, in iteration order (ObjectRender) *)
 Fixpoint render (O : oracle) (v : value) : str :=
   match v with
   | VScalar s => scalar_kstr O s
   | VArray l => flat_map (render O) l
   | VObject kvs =>
-      (fix go (first : bool) (kvs : list (str * value)) : str :=
+      (fix go (kvs : list (str * value)) : str :=
          match kvs with
          | [] => []
-         | (k, x) :: t => (if first then [] else [44;32]%N) ++ k ++ [58;32]%N ++ render O x ++ go false t
-         end) true kvs
+         | (k, x) :: t => k ++ render O x ++ go t
+         end) kvs
   | VState _ => []
   | VNil => []
   end.
